@@ -23,8 +23,8 @@ use poulpy_core::{
     layouts::{Base2K, Degree, Dnum, GLWE, GLWELayout, GLWESecret, GLWESecretPreparedFactory, LWE, LWESecret, Rank, TorusPrecision},
 };
 use poulpy_hal::{
-    api::{ScratchOwnedAlloc, ScratchOwnedBorrow},
-    layouts::{DeviceBuf, Module, NoiseInfos, ScratchOwned, ZnxInfos, ZnxView, ZnxViewMut},
+    api::{ScratchOwnedBorrow},
+    layouts::{DeviceBuf, Module, NoiseInfos, ZnxInfos, ZnxView, ZnxViewMut},
     source::Source,
 };
 use dashu_int::IBig;
@@ -348,7 +348,7 @@ pub fn run_br<B: FullBackend>(m: &Module<B>, c: &BrCase, c12: bool) -> Verdict {
     let brk_lay = BlindRotationKeyLayout { n_glwe: Degree(n as u32), n_lwe: Degree(n_lwe as u32), base2k: Base2K(b as u32), k: TorusPrecision(k_brk as u32), dnum: Dnum(c.brk_dnum as u32), rank: Rank(rank as u32) };
     let ni = NoiseInfos::new(k_brk, sigma, bnd).unwrap();
     let enc = EncryptionLayout::new(brk_lay, ni).unwrap();
-    let mut scratch = ScratchOwned::<B>::alloc(1 << 24);
+    let mut scratch = pzv_be::dirty_scratch::<B>(1 << 24);
     let mut brk = BlindRotationKey::<Vec<u8>, CGGI>::alloc(&brk_lay);
     m.blind_rotation_key_encrypt_sk(&mut brk, &skp, &sk_lwe, &enc, &mut Source::new(seed32(c.seed, 3)), &mut Source::new(seed32(c.seed, 4)), scratch.borrow());
     let mut brkp = BlindRotationKeyPrepared::alloc(m, &brk);
